@@ -212,6 +212,9 @@ pub struct Scenario {
     pub probe_pulls: bool,
     /// C19 only: the sink disposes from inside the handler of its k-th datum
     pub dispose_at: Option<usize>,
+    /// C19, TakeDirect only: when the racing threads are done, the same take value is subscribed
+    /// once more by a fresh sink and fed n + 1 data from one thread
+    pub resubscribe: bool,
 }
 
 impl Scenario {
@@ -224,9 +227,10 @@ impl Scenario {
             self.fail,
             if self.own_greet { "own-thread" } else { "subscribing-thread" },
             if self.probe_pulls { "pulls" } else { "passive" },
-            match self.dispose_at {
-                Some(k) => format!(" disposes-in-datum-{}", k),
-                None => String::new(),
+            match (self.dispose_at, self.resubscribe) {
+                (Some(k), _) => format!(" disposes-in-datum-{}", k),
+                (None, true) => " then-subscribed-again".to_string(),
+                _ => String::new(),
             }
         )
     }
@@ -246,6 +250,9 @@ pub struct Outcome {
     /// data whose delivery call had returned before the failing member began to deliver its Error
     /// (all data, if no member fails): these are owed to the sink
     pub owed: Vec<i64>,
+    /// the second, single-threaded subscription of the same take value (Scenario::resubscribe):
+    /// (what its sink observed, terminals its upstream subscription received)
+    pub second: Option<(Vec<REv>, usize)>,
 }
 
 fn member_value(m: usize, i: usize) -> i64 {
@@ -372,6 +379,7 @@ pub fn run_one(scn: &Scenario, strategy: Strategy) -> Outcome {
             set_current_thread(None);
         }));
     }
+    let kept: Mutex<Option<Src<V>>> = Mutex::new(None);
     // the subscribing thread
     let r = catch_unwind(AssertUnwindSafe(|| match &scn.shape {
         Shape::Merge => {
@@ -397,6 +405,7 @@ pub fn run_one(scn: &Scenario, strategy: Strategy) -> Outcome {
         },
         Shape::TakeDirect(n) => {
             let out: Src<V> = Arc::new(callbag::take(*n)(members[0].source()));
+            *kept.lock().unwrap() = Some(Arc::clone(&out));
             out(Message::Handshake(probe_sink::<V>(&rec, scn.probe_pulls, scn.dispose_at)));
             // all delivering threads share the one sink handle
             for t in 1..k {
@@ -441,6 +450,41 @@ pub fn run_one(scn: &Scenario, strategy: Strategy) -> Outcome {
             }
         }
     }
+    // the same take value once more, single-threaded, with a fresh sink
+    let mut second = None;
+    if let (true, Shape::TakeDirect(n), Some(out)) = (scn.resubscribe, &scn.shape, kept.lock().unwrap().clone()) {
+        let m = &members[0];
+        let mark = rec.lock().evs.len();
+        m.stopped.store(false, Ordering::SeqCst);
+        let rec2 = Rec::new();
+        let r = catch_unwind(AssertUnwindSafe(|| {
+            out(Message::Handshake(probe_sink::<V>(&rec2, false, None)));
+            let sink = m.sink.lock().unwrap().clone();
+            if let Some(sink) = sink {
+                for i in 0..(*n + 1) {
+                    if m.stopped.load(Ordering::SeqCst) {
+                        break;
+                    }
+                    sink(Message::Data(900 + i as i64));
+                }
+                if !m.stopped.load(Ordering::SeqCst) {
+                    sink(Message::Terminate);
+                }
+            }
+        }));
+        if r.is_err() {
+            if let Some(p) = take_last_panic() {
+                let mut s = panic_slot.lock().unwrap();
+                if s.is_none() {
+                    *s = Some(p);
+                }
+            }
+        }
+        let ups = rec.lock().evs[mark..].iter().filter(|e| e.obs == Obs::Member(0) && e.kind.is_terminal()).count();
+        // what follows the mark belongs to the second subscription only
+        rec.lock().evs.truncate(mark);
+        second = Some((rec2.lock().evs.clone(), ups));
+    }
     QUIET_PANICS.with(|q| q.set(false));
     let trail = take_trail(&sched);
     let g = sched.m.lock().unwrap_or_else(|p| p.into_inner());
@@ -460,6 +504,7 @@ pub fn run_one(scn: &Scenario, strategy: Strategy) -> Outcome {
         trail,
         sent,
         owed,
+        second,
     }
 }
 
@@ -583,6 +628,27 @@ pub fn judge(scn: &Scenario, o: &Outcome) -> Option<(&'static str, String)> {
             None
         },
         Shape::TakeDirect(n) | Shape::TakeMerge(n) => {
+            if let Some((evs2, ups2)) = &o.second {
+                // the second subscription is the only one now: exactly n of the n + 1 data, one
+                // completion, its upstream told to stop once
+                let d2 = evs2.iter().filter(|e| e.obs == Obs::Probe && e.enter && e.kind == Kind::Data).count();
+                let t2 = evs2.iter().filter(|e| e.obs == Obs::Probe && e.enter && e.kind.is_terminal()).count();
+                let g2 = evs2.iter().filter(|e| e.obs == Obs::Probe && e.enter && e.kind == Kind::Handshake).count();
+                if g2 != 1 || d2 != *n || t2 != 1 || *ups2 != 1 {
+                    return Some((
+                        "later-subscription-not-independent",
+                        format!(
+                            "take({}) subscribed again after the raced subscription and fed {} data: greeted {} times, {} data, {} terminals, upstream told to stop {} times",
+                            n,
+                            n + 1,
+                            g2,
+                            d2,
+                            t2,
+                            ups2
+                        ),
+                    ));
+                }
+            }
             let total: usize = o.sent.iter().map(|v| v.len()).sum();
             if data.len() > *n {
                 return Some(("take-over-delivered", format!("take({}) delivered {} data", n, data.len())));
@@ -651,7 +717,7 @@ pub fn scenarios(prop: &str) -> Vec<Scenario> {
                 for fail in [None, Some(0), Some(data.len() - 1)] {
                     for own_greet in [false, true] {
                         for probe_pulls in [false, true] {
-                            v.push(Scenario { shape: shape.clone(), data: data.clone(), fail, own_greet, probe_pulls, dispose_at: None });
+                            v.push(Scenario { shape: shape.clone(), data: data.clone(), fail, own_greet, probe_pulls, dispose_at: None, resubscribe: false });
                         }
                     }
                 }
@@ -661,15 +727,15 @@ pub fn scenarios(prop: &str) -> Vec<Scenario> {
         // one slot of combine! fed by two threads through merge!
         for data in [vec![1, 1, 1], vec![2, 1, 1], vec![1, 1, 2], vec![2, 2, 2]] {
             for probe_pulls in [false, true] {
-                v.push(Scenario { shape: Shape::CombineOverMerge, data: data.clone(), fail: None, own_greet: false, probe_pulls, dispose_at: None });
+                v.push(Scenario { shape: Shape::CombineOverMerge, data: data.clone(), fail: None, own_greet: false, probe_pulls, dispose_at: None, resubscribe: false });
             }
         }
     } else {
         for n in 1..=3usize {
             for data in [vec![1, 1], vec![2, 1], vec![2, 2], vec![1, 1, 1], vec![2, 2, 1], vec![3, 3]] {
                 for probe_pulls in [false, true] {
-                    v.push(Scenario { shape: Shape::TakeDirect(n), data: data.clone(), fail: None, own_greet: false, probe_pulls, dispose_at: None });
-                    v.push(Scenario { shape: Shape::TakeMerge(n), data: data.clone(), fail: None, own_greet: false, probe_pulls, dispose_at: None });
+                    v.push(Scenario { shape: Shape::TakeDirect(n), data: data.clone(), fail: None, own_greet: false, probe_pulls, dispose_at: None, resubscribe: false });
+                    v.push(Scenario { shape: Shape::TakeMerge(n), data: data.clone(), fail: None, own_greet: false, probe_pulls, dispose_at: None, resubscribe: false });
                 }
             }
         }
@@ -679,10 +745,15 @@ pub fn scenarios(prop: &str) -> Vec<Scenario> {
             for k in 1..n {
                 for data in [vec![2, 1], vec![2, 2], vec![1, 1, 1], vec![2, 2, 1], vec![3, 3]] {
                     for probe_pulls in [false, true] {
-                        v.push(Scenario { shape: Shape::TakeDirect(n), data: data.clone(), fail: None, own_greet: false, probe_pulls, dispose_at: Some(k) });
-                        v.push(Scenario { shape: Shape::TakeMerge(n), data: data.clone(), fail: None, own_greet: false, probe_pulls, dispose_at: Some(k) });
+                        v.push(Scenario { shape: Shape::TakeDirect(n), data: data.clone(), fail: None, own_greet: false, probe_pulls, dispose_at: Some(k), resubscribe: false });
+                        v.push(Scenario { shape: Shape::TakeMerge(n), data: data.clone(), fail: None, own_greet: false, probe_pulls, dispose_at: Some(k), resubscribe: false });
                     }
                 }
+            }
+        }
+        for n in 1..=2usize {
+            for data in [vec![2, 2], vec![3, 3], vec![2, 2, 1]] {
+                v.push(Scenario { shape: Shape::TakeDirect(n), data: data.clone(), fail: None, own_greet: false, probe_pulls: false, dispose_at: None, resubscribe: true });
             }
         }
     }
